@@ -29,7 +29,7 @@ CHECKS = {
         level="exploration",
         engine="E1-enum",
         technique="bounded-exhaustive enumeration of the ranked program space rendered by the engine and by an independent reference interpreter (differential)",
-        text="Every program of the depth-1 and depth-2 generator spaces (1.96e5 programs: all nestings of if/else, for with else / filter / unpacking / recursion, set, set-block, with, macros with defaults and keyword arguments, call blocks, filter blocks, autoescape blocks, break/continue, with leaves that read and write variables inside and outside every scope) under 3 contexts is rendered by the engine and by R, a 500-line tree walker over its own value type implementing the documented rules (scope per construct, clean scope per loop iteration, if-branches and template level persist, macro closures with definition-frame values, argument binding, caller, loop recursion, for-else, loop filters, unpacking, safe-string capture under auto-escaping); outputs must be identical or both must fail. Thorough adds every 41st depth-3 program (3.7e6 evaluations). A closure family (832 programs) assigns a name inside each of 13 enclosing constructs (if/else arms taken and not, for/else with 0 or 1 iterations, with, filter, set block, autoescape, nested ifs) in 4 assignment forms within a macro, a macro whose outer value changes after declaration, a call block in a loop and a macro in a macro, and reads it inside and after the construct. The loop object clause prints every field in every iteration for 11 sequence kinds (list, tuple, map keys, items, range, lazy iterable, string, reversed, sliced, |list, filtered loop) x lengths 0..4 against directly computed values.",
+        text="Every program of the depth-1 and depth-2 generator spaces (1.96e5 programs: all nestings of if/else, for with else / filter / unpacking / recursion, set, set-block, with, macros with defaults and keyword arguments, call blocks, filter blocks, autoescape blocks, break/continue, with leaves that read and write variables inside and outside every scope) under 3 contexts is rendered by the engine and by R, a 500-line tree walker over its own value type implementing the documented rules (scope per construct, clean scope per loop iteration, if-branches and template level persist, macro closures with definition-frame values, argument binding, caller, loop recursion, for-else, loop filters, unpacking, safe-string capture under auto-escaping); outputs must be identical or both must fail. Thorough adds every 41st depth-3 program (3.7e6 evaluations). A closure family (2048 programs) assigns a name inside each of 16 enclosing constructs (if/else arms taken and not, for/else with 0 or 1 iterations, loop else bodies reading names the loop bound, with, filter, set block, autoescape, nested ifs) in 4 assignment forms within a macro, a macro whose outer value changes after declaration, a call block in a loop and a macro in a macro, and reads it inside and after the construct. The loop object clause prints every field in every iteration for 11 sequence kinds (list, tuple, map keys, items, range, lazy iterable, string, reversed, sliced, |list, filtered loop) x lengths 0..4 against directly computed values.",
         note="R is the trusted base; every disagreement was triaged by hand (three engine defects fixed, two gaps in R closed). R deliberately leaves undefined: includes/blocks, `set` in a for-else body read afterwards, macro defaults referring to parameters, conditional expressions; such programs are reported as 'outside R'.",
         design_ref="2/C03",
     ),
@@ -53,7 +53,7 @@ CHECKS = {
         level="model_checking",
         engine="E2-bcmc",
         technique="explicit-state model checking of compiled instruction streams under an abstract VM (all control-flow paths), bound to the real VM by trace conformance through verif_hooks probes",
-        text="For every generated program (complete depth-1 space with blocks, includes, macros, call blocks, set/filter/autoescape/with blocks, recursive and filtered loops and break/continue, in three wrappings: plain with sentinel text, as child block under extends, as included template; a third of the depth-2 space quick / all of it plus a stride of depth 3 thorough; 11 hand-written shapes) each instruction stream and each entry point (main, every block, every macro body) is explored exhaustively by BFS over abstract states (pc, operand stack of Opaque|Int, frame kinds with loop iteration count and recursion return, capture stack, auto-escape depth, extends-pending, recursion depth) with every conditional jump, short-circuit jump and Iterate taken both ways; invariants on every state/transition: frame/capture/escape pops hit something the same evaluation pushed and of the right kind, no operand pop below the entry height, everything balanced at every end, every reachable state can reach an end. The model is bound to the code: each program is rendered under 3 contexts with probes recording every executed instruction, and every concrete trace must be a path of the explored abstract graph (same pc, operand height, frame kinds, capture and auto-escape depth at every step); real evaluations must also leave frames, captures and the auto-escape mode as they found them and a sentinel after the outermost construct must reach the output.",
+        text="For every generated program (complete depth-1 space with blocks, includes, macros, call blocks, set/filter/autoescape/with blocks, recursive and filtered loops and break/continue, in three wrappings: plain with sentinel text, as child block under extends, as included template; a third of the depth-2 space quick / all of it plus a stride of depth 3 thorough; 11 hand-written shapes; every way of leaving a loop by break / continue, unconditional and conditional, through every sequence of 1..2 (thorough 3) nested scoped constructs out of {with, set block, filter block, autoescape on, autoescape off, if, call block}) each instruction stream and each entry point (main, every block, every macro body) is explored exhaustively by BFS over abstract states (pc, operand stack of Opaque|Int, frame kinds with loop iteration count and recursion return, capture stack, auto-escape depth, extends-pending, recursion depth) with every conditional jump, short-circuit jump and Iterate taken both ways; invariants on every state/transition: frame/capture/escape pops hit something the same evaluation pushed and of the right kind, no operand pop below the entry height, everything balanced at every end, every reachable state can reach an end. The model is bound to the code: each program is rendered under 3 contexts with probes recording every executed instruction, and every concrete trace must be a path of the explored abstract graph (same pc, operand height, frame kinds, capture and auto-escape depth at every step); real evaluations must also leave frames, captures and the auto-escape mode as they found them and a sentinel after the outermost construct must reach the output.",
         note="Bounds: loops iterate 0..2 times, loop recursion nests <= 3. Include/CallBlock/FastSuper/macro calls are atomic in the caller and each callee stream is explored on its own. A conformance failure is a machinery error (key MACHINERY:conformance). `do` and *args calls are outside the alphabet.",
         design_ref="2/C05",
     ),
@@ -85,7 +85,7 @@ CHECKS = {
         level="exploration",
         engine="E1-enum",
         technique="bounded-exhaustive enumeration of failing templates (every truncation point and stray-token insertion of a corpus; run-time faults x construct placements) x vertical/horizontal offsets, with a metamorphic shift oracle",
-        text="Syntax errors are produced by truncating every template of a corpus (29 hand-written templates covering every tag and literal form plus generator programs) at every character boundary, with and without multi-byte text in front, and by inserting 12 stray tokens at the boundaries, plus 37 classic faults; run-time errors by planting 21 failing constructs into 18 placements (loops, branches, with, macros, call blocks, set/filter blocks, child/parent blocks, super, includes, imports, recursive loops, three-level inheritance) whose expected template and line are computed from the placement. Every failing case is re-run with 1/17/(65535-len) filler lines above it (LF and CRLF) and with 3-byte, multi-byte and 70 000-byte prefixes. Oracle: the error and every located cause name a template and a line inside it; kind/detail/name are unchanged and lines move by exactly N; ranges are in bounds, on char boundaries of template_source(), equal to the named template and move by the inserted byte count; Display, alternate, Debug, pretty Debug and display_debug_info never panic or return fmt::Error.",
+        text="Syntax errors are produced by truncating every template of a corpus (29 hand-written templates covering every tag and literal form plus generator programs) at every character boundary, with and without multi-byte text in front, and by inserting 12 stray tokens at the boundaries, plus 37 classic faults; run-time errors by planting 21 failing constructs into 18 placements (loops, branches, with, macros, call blocks, set/filter blocks, child/parent blocks, super, includes, imports, recursive loops, three-level inheritance) whose expected template and line are computed from the placement. Every failing case is re-run with 1/17/(65535-len) filler lines above it (LF and CRLF) and with 3-byte, multi-byte and 70 000-byte prefixes. Oracle: the error and every located cause name a template and a line inside it; kind/detail/name are unchanged and lines move by exactly N; ranges are in bounds, on char boundaries of template_source(), equal to the named template and move by the inserted byte count; Display, alternate, Debug, pretty Debug and display_debug_info never panic or return fmt::Error. Residue: every failing case is re-run on a fresh OS thread after each of 12 prior templates (one per statement kind, three that fail to compile half way) was compiled on that thread with its construct on the failing line; the full location must equal the one obtained on a fresh thread without a prior (the compiler keeps thread-local scratch pools).",
         note="Strict undefined mode. Cases that do not fail are skipped and counted. Templates beyond 65 535 lines are outside the property (u16 line counter).",
         design_ref="2/C14",
     ),
@@ -101,7 +101,7 @@ CHECKS = {
         level="exploration",
         engine="E1-enum",
         technique="bounded-exhaustive enumeration of programs and of a registry-generated site table x 4 undefined behaviours, with a monotonicity relation between the four runs and a matrix oracle on direct sites",
-        text="Every program of the depth-2 generator space under 3 contexts (two with missing keys), a site table generated from the built-in registry (each of the 49 filters x 17 argument forms, 42 tests x 8, 4 functions x 6, 62 operator/statement forms, each with an undefined in every argument position) and 5 multi-template families are rendered under Strict, SemiStrict, Lenient and Chainable; whenever a mode succeeds every weaker mode must succeed with the identical output. 22 direct syntactic sites x 4 undefined spellings are compared with the documented matrix (print/iterate fail under Strict+SemiStrict, truth tests only under Strict, attribute/item access everywhere but Chainable, is defined / is undefined / default never), including the error kind.",
+        text="Every program of the depth-2 generator space under 3 contexts (two with missing keys), a site table generated from the built-in registry (each of the 49 filters x 17 argument forms, 42 tests x 8, 4 functions x 6, 62 operator/statement forms, each with an undefined in every argument position) and 5 multi-template families are rendered under Strict, SemiStrict, Lenient and Chainable; whenever a mode succeeds every weaker mode must succeed with the identical output. 22 direct syntactic sites x 4 undefined spellings are compared with the documented matrix (print/iterate fail under Strict+SemiStrict, truth tests only under Strict, attribute/item access everywhere but Chainable, is defined / is undefined / default never), including the error kind. The undefined operand is spelled as a missing variable, a missing key, a missing attribute, an out-of-range index and as the value of an else-less conditional expression whose condition is false (printing, testing and iterating that one is exempt from errors in every mode; attribute, item and slice access on it must fail everywhere except Chainable, also after it was carried through set or a macro argument).",
         note="The relation is between whole renders; the matrix oracle is limited to sites where the undefined operand is used directly.",
         design_ref="2/C12",
     ),
@@ -141,7 +141,7 @@ CHECKS = {
         level="exploration",
         engine="E1-enum",
         technique="bounded-exhaustive enumeration of text/tag/marker sequences x 8 settings against an independent model of the whitespace rules; metamorphic delimiter rewriting of every program of the ranked generator space",
-        text="Every source `text tag text tag text` over a 14-text alphabet (blanks, LF, CRLF, brace and delimiter look-alikes) and 36 tags (variable, block, comment, raw x left/right marker in {none,-,+}) under all 8 settings (3.5e6 sources x 8; thorough adds three tags over a 6-text core alphabet, 4.8e8 cases) is rendered and compared byte for byte with an 80-line model that implements the rules exactly as the property words them (lstrip judged on the original source); every single raw block with all 81 inner/outer marker combinations x 6 contents is covered too. For delimiter independence every program of the depth-2 generator space (1.96e5 programs, 3 contexts) is rewritten token by token into 10 delimiter families (prefix-sharing, nested-prefix, single-brace, LaTeX, shared end marker, long, with line statement/comment prefixes) and must render identically; default-looking delimiters embedded as text must come out verbatim; line statements/comments are compared with the tag occupying the line for LF and CRLF.",
+        text="Every source `text tag text tag text` over a 14-text alphabet (blanks, LF, CRLF, brace and delimiter look-alikes) and 36 tags (variable, block, comment, raw x left/right marker in {none,-,+}) under all 8 settings (3.5e6 sources x 8; plus 34 tags written without blanks or, for comments, without any body - {{-v-}}, {%-set x = 1-%}, {#-c-#}, {#-#}, {#--#}, {##} - alone between all texts and next to every ordinary tag over the core texts; thorough adds three tags over a 6-text core alphabet, 4.8e8 cases) is rendered and compared byte for byte with an 80-line model that implements the rules exactly as the property words them (lstrip judged on the original source); every single raw block with all 81 inner/outer marker combinations x 6 contents is covered too. For delimiter independence every program of the depth-2 generator space (1.96e5 programs, 3 contexts) is rewritten token by token into 10 delimiter families (prefix-sharing, nested-prefix, single-brace, LaTeX, shared end marker, long, with line statement/comment prefixes) and must render identically; default-looking delimiters embedded as text must come out verbatim; line statements/comments are compared with the tag occupying the line for LF and CRLF.",
         note="Trusted: the whitespace model in c10.rs (calibrated: it agrees with the engine on all cases after two lexer fixes). Lone-CR line ends and non-ASCII blanks are outside the alphabet. Programs whose text would fuse with a delimiter of the target set are skipped for that set.",
         design_ref="2/C10",
     ),
@@ -157,7 +157,7 @@ CHECKS = {
         level="exploration",
         engine="E1-enum",
         technique="bounded-exhaustive enumeration of operand pairs over a boundary alphabet in every integer representation, adjudicated by an arbitrary-precision integer oracle",
-        text="All ordered pairs of the boundary points of [-2^127, 2^128) (0, +-1, small, 2^31, 2^32, 2^53, 2^63, 2^64, 2^127 each +-1, 2^126, 2^128-1, ...) in every representation that can hold them (literal, i64, u64, i128, u128) x {+,-,*,//,%,**} and unary minus are evaluated through compile_expression/eval and compared with exact big-integer arithmetic: in-range results must be exact, out-of-range ones exact or an error, never another integer, and the same mathematical operands must give the same outcome in every representation. The Euclid identity/range is checked for all pairs of small dyadic floats and ints, and 12 comparison forms for every integer x 29 floats against exact rational comparison. Wrap-around and sign loss live exactly at these boundary points; complete enumeration of their pairs decides the property for the alphabet.",
+        text="All ordered pairs of the boundary points of [-2^127, 2^128) (0, +-1, small, 2^31, 2^32, 2^53, 2^63, 2^64, 2^127 each +-1, 2^126, 2^128-1, ...) in every representation that can hold them (literal, i64, u64, i128, u128) x {+,-,*,//,%,**} and unary minus are evaluated through compile_expression/eval and compared with exact big-integer arithmetic: in-range results must be exact, out-of-range ones exact or an error, never another integer, and the same mathematical operands must give the same outcome in every representation. The same oracle judges all ordered pairs of the power-of-two lattice (2^k, 2^k - 1, -2^k for every k in 0..=128, thorough also 2^k + 1 and the negated neighbours; 3.9e2 / 7.8e2 operands) under the six operators, so that every operation whose exact result crosses a width boundary (2 ** 127, 2^64 * 2^63, ...) is inside the box. The Euclid identity/range is checked for all pairs of small dyadic floats and ints, and 12 comparison forms for every integer x 29 floats against exact rational comparison. Wrap-around and sign loss live exactly at these boundary points; complete enumeration of their pairs decides the property for the alphabet.",
         note="Trusted: the ~300-line big-integer oracle (self-tested against i128 at every start). Operands off the boundary alphabet are not explored. The -2^127 literal is judged through unary minus only (known finding).",
         design_ref="2/C08",
     ),
@@ -165,7 +165,7 @@ CHECKS = {
         level="exploration",
         engine="E1-enum",
         technique="bounded-exhaustive enumeration of the complete (kind,len,start,stop,step) box against a transcribed CPython slice-index oracle",
-        text="Every point of the box the property quantifies over (7 kinds x len 0..=6 x 22 start x 22 stop x 12 step values, literal and variable operand forms, plus all subscripts) is evaluated through Expression::eval and compared with Python's slice.indices semantics and the result-kind rule; the box contains every relation between bounds that the implementation's case analysis distinguishes, so a pass is a complete small-scope statement, not a sample.",
+        text="Every point of the box the property quantifies over (10 kinds - ASCII and multi-byte strings in inline, shared-heap and safe-string storage, list, tuple, sized and unsized lazy iterable, bytes - x len 0..=6 x 22 start x 22 stop x 12 step values, literal and variable operand forms, plus all subscripts) is evaluated through Expression::eval and compared with Python's slice.indices semantics and the result-kind rule; the box contains every relation between bounds that the implementation's case analysis distinguishes, so a pass is a complete small-scope statement, not a sample.",
         note="Trusted: the 20-line transcription of PySlice_AdjustIndices in the harness. Bounds that do not fit i64 are rejected by the engine with an error and are outside the box.",
         design_ref="2/C09",
     ),
